@@ -4,6 +4,9 @@
 //          0..3 group filters and 0..3 name filters (text of length 0..5 or a copy / substring of a test's string, strict, inverted), run-ignored, order operation
 //          none / reverse / shuffle / both (libc rand with a seed lattice, or a scripted PlatformSpecificRand),
 //          1..3 repetitions re-shuffled with the same seed as CommandLineTestRunner does.
+//          Between repetitions the long-lived registry may change: run-ignored switched on after 1 or 2 completed runs,
+//          filter lists replaced / extended / cleared, tests added, the first test removed, reverse; the model is
+//          evaluated per repetition for the configuration in force.
 // Oracle:  selection predicate written from the property statement on std::string; per repetition the execution
 //          counters, the four TestResult counters, the complete callback stream and the registry walk.
 #include "common.h"
@@ -125,16 +128,57 @@ bool walk(TestRegistry& reg, size_t n, std::vector<int>& ids) {
 }
 std::string show_ids(const std::vector<int>& v) { std::string o; for (int x : v) o += sfmt("%d ", x); return o; }
 
-int check_walk(const char* when, TestRegistry& reg, size_t n, std::vector<int>& order) {
+// `present` = ids of the tests that are registered right now (sorted)
+int check_walk(const char* when, TestRegistry& reg, const std::vector<int>& present, std::vector<int>& order) {
+    size_t n = present.size();
     bool terminated = walk(reg, n, order);
     V_CHECK(terminated, "C02:list-not-terminated", "%s: registry walk did not end after %zu tests: %s", when, n, show_ids(order).c_str());
-    V_CHECK(order.size() == n, "C02:test-lost-or-duplicated", "%s: registry walk has %zu tests, %zu were registered: %s", when, order.size(), n, show_ids(order).c_str());
+    V_CHECK(order.size() == n, "C02:test-lost-or-duplicated", "%s: registry walk has %zu tests, %zu are registered: %s", when, order.size(), n, show_ids(order).c_str());
     std::vector<int> sorted = order; std::sort(sorted.begin(), sorted.end());
-    for (size_t i = 0; i < n; i++)
-        V_CHECK(sorted[i] == (int)i, "C02:test-lost-or-duplicated", "%s: registry walk is not a permutation of the registered tests: %s", when, show_ids(order).c_str());
+    V_CHECK(sorted == present, "C02:test-lost-or-duplicated", "%s: registry walk %s is not a permutation of the registered tests %s", when, show_ids(order).c_str(), show_ids(present).c_str());
     V_CHECK(reg.countTests() == n, "C02:countTests", "%s: countTests()=%zu with %zu registered tests", when, reg.countTests(), n);
     return 0;
 }
+
+TestSpec gen_test(Reader& r, const std::deque<TestSpec>& tests) {
+    size_t i = tests.size();
+    TestSpec t; uint8_t f = r.u8();
+    t.ignored = (f & 3u) == 3u;
+    bool same_group = (f & 4u) != 0 && i > 0;
+    t.group = same_group ? tests[i - 1].group : gen_string(r, false);
+    if ((f & 24u) == 24u && i > 0) t.name = tests[(f >> 5) % i].name; else t.name = gen_string(r, false);
+    return t;
+}
+FilterSpec gen_filter(Reader& r, int which, const std::deque<TestSpec>& tests) {
+    size_t n = tests.size();
+    FilterSpec f; uint8_t m = r.u8();
+    f.strict = (m & 1u) != 0; f.inverted = (m & 2u) != 0;
+    unsigned kind = (m >> 2) % 4u;
+    if (kind == 0 || n == 0) f.text = gen_string(r, true);
+    else {
+        const TestSpec& t = tests[r.below((uint32_t)n)];
+        const std::string& src = which == 0 ? t.group : t.name;
+        if (kind == 1) f.text = src;                                   // whole string (strict matches)
+        else {
+            uint8_t b = r.u8();
+            size_t pos = src.empty() ? 0 : (b & 15u) % src.size();
+            size_t len = 1 + ((b >> 4) % 5u);
+            if (kind == 3) {                                           // an occurrence that follows an overlapping false start: "aab" out of "aaab"
+                bool found = false;
+                for (size_t q = 0; q < src.size() && !found; q++) for (size_t l = 2; l <= 5 && !found; l++) {
+                    size_t c = (pos + q) % src.size();
+                    if (c + l <= src.size() && needs_backtracking(src, src.substr(c, l))) { pos = c; len = l; found = true; }
+                }
+            }
+            f.text = src.substr(pos, len);
+        }
+    }
+    return f;
+}
+
+// what a long-lived registry sees between two runs
+enum ChangeKind { CH_NONE = 0, CH_REPLACE_FILTERS, CH_ADD_FILTER, CH_CLEAR_FILTERS, CH_ADD_TESTS, CH_REMOVE_FIRST, CH_REVERSE, CH_RUN_IGNORED_ON, CH_KINDS };
+struct Change { ChangeKind kind; int which; std::vector<FilterSpec> fs; std::vector<size_t> new_tests; };
 
 int run_case(Reader& r, bool& nontrivial, std::string& desc) {
     // ---------------- decode
@@ -142,44 +186,13 @@ int run_case(Reader& r, bool& nontrivial, std::string& desc) {
     size_t n = r.below(25);
     unsigned op = r.below(4);                 // 0 none, 1 reverse, 2 shuffle, 3 reverse then shuffle
     size_t nf[2]; nf[0] = r.below(4); nf[1] = r.below(4);
-    bool run_ignored = r.below(2) != 0;
+    unsigned ri_mode = r.below(4);            // 0 off, 1 on from the start, 2 / 3 switched on after one / two completed runs
     size_t reps = 1 + r.below(3);
-    std::deque<TestSpec> tests;
-    for (size_t i = 0; i < n; i++) {
-        TestSpec t; uint8_t f = r.u8();
-        t.ignored = (f & 3u) == 3u;
-        bool same_group = (f & 4u) != 0 && i > 0;
-        t.group = same_group ? tests[i - 1].group : gen_string(r, false);
-        if ((f & 24u) == 24u && i > 0) t.name = tests[(f >> 5) % i].name; else t.name = gen_string(r, false);
-        tests.push_back(t);
-    }
+    std::deque<TestSpec> tests;               // every test the case ever creates; id = index (references stay valid)
+    for (size_t i = 0; i < n; i++) tests.push_back(gen_test(r, tests));
     std::vector<FilterSpec> filters[2];   // 0 group, 1 name
     for (int which = 0; which < 2; which++)
-        for (size_t k = 0; k < nf[which]; k++) {
-            FilterSpec f; uint8_t m = r.u8();
-            f.strict = (m & 1u) != 0; f.inverted = (m & 2u) != 0;
-            unsigned kind = (m >> 2) % 4u;
-            if (kind == 0 || n == 0) f.text = gen_string(r, true);
-            else {
-                const TestSpec& t = tests[r.below((uint32_t)n)];
-                const std::string& src = which == 0 ? t.group : t.name;
-                if (kind == 1) f.text = src;                                   // whole string (strict matches)
-                else {
-                    uint8_t b = r.u8();
-                    size_t pos = src.empty() ? 0 : (b & 15u) % src.size();
-                    size_t len = 1 + ((b >> 4) % 5u);
-                    if (kind == 3) {                                           // an occurrence that follows an overlapping false start: "aab" out of "aaab"
-                        bool found = false;
-                        for (size_t q = 0; q < src.size() && !found; q++) for (size_t l = 2; l <= 5 && !found; l++) {
-                            size_t c = (pos + q) % src.size();
-                            if (c + l <= src.size() && needs_backtracking(src, src.substr(c, l))) { pos = c; len = l; found = true; }
-                        }
-                    }
-                    f.text = src.substr(pos, len);
-                }
-            }
-            filters[which].push_back(f);
-        }
+        for (size_t k = 0; k < nf[which]; k++) filters[which].push_back(gen_filter(r, which, tests));
     bool do_reverse = (op & 1u) != 0, do_shuffle = (op & 2u) != 0;
     bool scripted = false; size_t seed = 0;
     g_script.clear(); g_script_pos = 0;
@@ -210,19 +223,47 @@ int run_case(Reader& r, bool& nontrivial, std::string& desc) {
             }
         }
     }
-
-    // ---------------- model of the selection
-    std::vector<bool> selected(n), runs(n);
-    size_t n_sel = 0, n_run = 0, n_ign = 0;
-    for (size_t i = 0; i < n; i++) {
-        selected[i] = accepted_by_list(filters[0], tests[i].group) && accepted_by_list(filters[1], tests[i].name);
-        runs[i] = selected[i] && (!tests[i].ignored || run_ignored);
-        if (selected[i]) n_sel++;
-        if (runs[i]) n_run++;
-        if (selected[i] && !runs[i]) n_ign++;
+    // changes between repetitions (last in the input: old inputs decode to "no change")
+    std::vector<std::vector<Change>> changes(reps);   // changes[k] are applied before repetition k (k >= 1)
+    size_t n_changes = 0;
+    for (size_t rep = 1; rep < reps; rep++) {
+        size_t k = r.below(3);
+        for (size_t q = 0; q < k; q++) {
+            Change c; c.kind = (ChangeKind)r.below(CH_KINDS); c.which = 0;
+            switch (c.kind) {
+            case CH_REPLACE_FILTERS: { c.which = (int)r.below(2); size_t m = r.below(4); for (size_t j = 0; j < m; j++) c.fs.push_back(gen_filter(r, c.which, tests)); break; }
+            case CH_ADD_FILTER: c.which = (int)r.below(2); c.fs.push_back(gen_filter(r, c.which, tests)); break;
+            case CH_CLEAR_FILTERS: c.which = (int)r.below(2); break;
+            case CH_ADD_TESTS: { size_t m = 1 + r.below(3); for (size_t j = 0; j < m && tests.size() < 40; j++) { c.new_tests.push_back(tests.size()); tests.push_back(gen_test(r, tests)); } break; }
+            default: break;
+            }
+            if (c.kind != CH_NONE) n_changes++;
+            changes[rep].push_back(c);
+        }
     }
+    size_t total = tests.size();
+
+    // ---------------- model of the selection for the configuration in force (initially; re-evaluated per repetition)
+    bool run_ignored = ri_mode == 1;
+    std::vector<int> present; for (size_t i = 0; i < n; i++) present.push_back((int)i);
+    std::vector<bool> selected(total), runs(total);
+    size_t n_sel = 0, n_run = 0, n_ign = 0;
+    auto evaluate = [&]() {
+        n_sel = n_run = n_ign = 0;
+        std::fill(selected.begin(), selected.end(), false); std::fill(runs.begin(), runs.end(), false);
+        for (int id : present) {
+            size_t i = (size_t)id;
+            selected[i] = accepted_by_list(filters[0], tests[i].group) && accepted_by_list(filters[1], tests[i].name);
+            runs[i] = selected[i] && (!tests[i].ignored || run_ignored);
+            if (selected[i]) n_sel++;
+            if (runs[i]) n_run++;
+            if (selected[i] && !runs[i]) n_ign++;
+        }
+    };
+    evaluate();
     bool any_filter = nf[0] + nf[1] > 0;
-    nontrivial = n >= 3 && ((any_filter && n_sel > 0 && n_sel < n) || op != 0);
+    bool late_ri = ri_mode >= 2 && reps >= ri_mode;
+    nontrivial = n >= 3 && ((any_filter && n_sel > 0 && n_sel < n) || op != 0 || n_changes > 0 || late_ri);
 
     // ---------------- classes / rendering
     verif::cls(n == 0 ? "n=0" : n < 3 ? "n=1-2" : n < 10 ? "n=3-9" : "n=10-24");
@@ -235,23 +276,45 @@ int run_case(Reader& r, bool& nontrivial, std::string& desc) {
         if (f.text.empty()) verif::cls("filter:empty-text");
     }
     { bool nb = false, longhay = false;
-      for (int which = 0; which < 2; which++) for (auto& f : filters[which]) if (!f.strict) for (auto& t : tests) { const std::string& h = which == 0 ? t.group : t.name; if (needs_backtracking(h, f.text)) nb = true; if (h.size() >= 4 && f.text.size() >= 2 && h.find(f.text) != std::string::npos) longhay = true; }
+      for (int which = 0; which < 2; which++) for (auto& f : filters[which]) if (!f.strict) for (size_t i = 0; i < n; i++) { const std::string& h = which == 0 ? tests[i].group : tests[i].name; if (needs_backtracking(h, f.text)) nb = true; if (h.size() >= 4 && f.text.size() >= 2 && h.find(f.text) != std::string::npos) longhay = true; }
       if (nb) verif::cls("substring:occurrence-after-overlapping-false-start");
       if (longhay) verif::cls("substring:needle>=2-found-in-haystack>=4"); }
     if (any_filter && n > 0) verif::cls(n_sel == 0 ? "selects:none" : n_sel == n ? "selects:all" : "selects:proper-subset");
-    if (run_ignored) verif::cls("run-ignored");
-    { bool has_ign = false; for (auto& t : tests) has_ign |= t.ignored; if (has_ign) verif::cls(run_ignored ? "ignored-tests-run" : "ignored-tests-skipped"); }
+    { static const char* rm[] = {"run-ignored:off", "run-ignored:from-start", "run-ignored:after-1-run", "run-ignored:after-2-runs"}; verif::cls(rm[ri_mode]); }
+    { bool has_ign = false; for (size_t i = 0; i < n; i++) has_ign |= tests[i].ignored;
+      if (has_ign) verif::cls(run_ignored ? "ignored-tests-run" : "ignored-tests-skipped");
+      if (has_ign && late_ri) verif::cls("between-runs:run-ignored-switched-on-with-ignored-tests"); }
     { static const char* rn[] = {"", "reps=1", "reps=2", "reps=3"}; verif::cls(rn[reps]); }
+    if (n_changes) verif::cls("between-runs:some-change");
+    for (auto& cs : changes) for (auto& c : cs) {
+        static const char* cn[] = {"", "between-runs:filters-replaced", "between-runs:filter-added", "between-runs:filters-cleared", "between-runs:tests-added", "between-runs:first-test-removed", "between-runs:reverse", "between-runs:run-ignored-on"};
+        if (c.kind != CH_NONE) verif::cls(cn[c.kind]);
+    }
 
+    auto show_test = [&](size_t i) { return sfmt("%s%s.%s", tests[i].ignored ? "I:" : "", tests[i].group.c_str(), tests[i].name.c_str()); };
     desc = sfmt("n=%zu [", n);
-    for (size_t i = 0; i < n; i++) desc += sfmt("%s%s.%s ", tests[i].ignored ? "I:" : "", tests[i].group.c_str(), tests[i].name.c_str());
+    for (size_t i = 0; i < n; i++) desc += show_test(i) + " ";
     desc += "] g{";
     for (auto& f : filters[0]) desc += show(f) + " ";
     desc += "} n{";
     for (auto& f : filters[1]) desc += show(f) + " ";
-    desc += sfmt("} ri=%d op=%u", (int)run_ignored, op);
+    desc += sfmt("} ri=%u op=%u", ri_mode, op);
     if (do_shuffle) { desc += scripted ? " rand=script(" : sfmt(" seed=%zu", seed); if (scripted) { for (int v : g_script) desc += sfmt("%d,", v); desc += ")"; } }
     desc += sfmt(" reps=%zu -> %zu selected", reps, n_sel);
+    for (size_t rep = 1; rep < reps; rep++) for (auto& c : changes[rep]) {
+        if (c.kind == CH_NONE) continue;
+        desc += sfmt("; before rep %zu: ", rep + 1);
+        switch (c.kind) {
+        case CH_REPLACE_FILTERS: desc += sfmt("%s filters := {", c.which ? "name" : "group"); for (auto& f : c.fs) desc += show(f) + " "; desc += "}"; break;
+        case CH_ADD_FILTER: desc += sfmt("%s filters += %s", c.which ? "name" : "group", show(c.fs[0]).c_str()); break;
+        case CH_CLEAR_FILTERS: desc += sfmt("%s filters := none", c.which ? "name" : "group"); break;
+        case CH_ADD_TESTS: desc += "add "; for (size_t i : c.new_tests) desc += show_test(i) + " "; break;
+        case CH_REMOVE_FIRST: desc += "remove first test"; break;
+        case CH_REVERSE: desc += "reverse"; break;
+        case CH_RUN_IGNORED_ON: desc += "run-ignored on"; break;
+        default: break;
+        }
+    }
     if (verif::g_explain) fprintf(stderr, "case: %s\n", desc.c_str());
 
     // ---------------- build the real thing
@@ -260,72 +323,115 @@ int run_case(Reader& r, bool& nontrivial, std::string& desc) {
     reg.setCurrentRegistry(&reg);
     std::vector<std::unique_ptr<UtestShell>> shells;
     std::map<const UtestShell*, int> ids; g_ids = &ids;
-    for (size_t i = 0; i < n; i++) {
+    for (size_t i = 0; i < total; i++) {
         UtestShell* s = tests[i].ignored ? (UtestShell*)new IgnoredShell((int)i, tests[i].group.c_str(), tests[i].name.c_str())
                                          : (UtestShell*)new NormalShell((int)i, tests[i].group.c_str(), tests[i].name.c_str());
         shells.emplace_back(s); ids[s] = (int)i;
     }
     for (size_t i = 0; i < n; i++) reg.addTest(shells[i].get());
-    std::vector<std::unique_ptr<TestFilter>> real_filters;
+    std::vector<std::unique_ptr<TestFilter>> real_filters;   // owns every filter object of the case
     TestFilter* heads[2] = {NULLPTR, NULLPTR};
-    for (int which = 0; which < 2; which++)
-        for (auto& f : filters[which]) {
-            TestFilter* tf = new TestFilter(f.text.c_str());
-            if (f.strict) tf->strictMatching();
-            if (f.inverted) tf->invertMatching();
-            real_filters.emplace_back(tf);
-            heads[which] = tf->add(heads[which]);
-        }
-    reg.setGroupFilters(heads[0]);
-    reg.setNameFilters(heads[1]);
+    auto make_filter = [&](const FilterSpec& f) {
+        TestFilter* tf = new TestFilter(f.text.c_str());
+        if (f.strict) tf->strictMatching();
+        if (f.inverted) tf->invertMatching();
+        real_filters.emplace_back(tf);
+        return tf;
+    };
+    auto install = [&](int which) { if (which == 0) reg.setGroupFilters(heads[0]); else reg.setNameFilters(heads[1]); };
+    for (int which = 0; which < 2; which++) { for (auto& f : filters[which]) heads[which] = make_filter(f)->add(heads[which]); install(which); }
     if (run_ignored) reg.setRunIgnored();
     if (scripted) { PlatformSpecificSrand = scripted_srand; PlatformSpecificRand = scripted_rand; }
 
     std::vector<int> order, prev;
-    if (int rc = check_walk("after registration", reg, n, order)) return rc;
-    if (do_reverse) {
+    if (int rc = check_walk("after registration", reg, present, order)) return rc;
+    auto reverse_checked = [&]() -> int {
         prev = order;
         reg.reverseTests();
-        if (int rc = check_walk("after reverseTests", reg, n, order)) return rc;
+        if (int rc = check_walk("after reverseTests", reg, present, order)) return rc;
         std::reverse(prev.begin(), prev.end());
         V_CHECK(prev == order, "C02:reverse-not-reversed", "reverseTests gave %s, expected %s", show_ids(order).c_str(), show_ids(prev).c_str());
-    }
+        return 0;
+    };
+    if (do_reverse) if (int rc = reverse_checked()) return rc;
     bool nonadjacent_repeat = false, adjacent_equal = false;
     for (size_t rep = 0; rep < reps; rep++) {
+        // ---- what happens to the long-lived registry between two runs
+        if (rep > 0 && ri_mode >= 2 && rep == ri_mode - 1 && !run_ignored) { reg.setRunIgnored(); run_ignored = true; }
+        for (auto& c : changes[rep]) {
+            switch (c.kind) {
+            case CH_REPLACE_FILTERS:
+                filters[c.which] = c.fs; heads[c.which] = NULLPTR;
+                for (auto& f : c.fs) heads[c.which] = make_filter(f)->add(heads[c.which]);
+                install(c.which); break;
+            case CH_ADD_FILTER:
+                filters[c.which].push_back(c.fs[0]); heads[c.which] = make_filter(c.fs[0])->add(heads[c.which]);
+                install(c.which); break;
+            case CH_CLEAR_FILTERS: filters[c.which].clear(); heads[c.which] = NULLPTR; install(c.which); break;
+            case CH_ADD_TESTS:
+                for (size_t i : c.new_tests) { reg.addTest(shells[i].get()); present.push_back((int)i); }
+                std::sort(present.begin(), present.end());
+                if (int rc = check_walk("after addTest between runs", reg, present, order)) return rc;
+                break;
+            case CH_REMOVE_FIRST:
+                if (!order.empty()) {
+                    int gone = order[0];
+                    reg.unDoLastAddTest();
+                    present.erase(std::find(present.begin(), present.end(), gone));
+                    std::vector<int> expect(order.begin() + 1, order.end());
+                    if (int rc = check_walk("after unDoLastAddTest between runs", reg, present, order)) return rc;
+                    V_CHECK(order == expect, "C02:remove-first", "unDoLastAddTest left %s, expected %s", show_ids(order).c_str(), show_ids(expect).c_str());
+                }
+                break;
+            case CH_REVERSE: if (int rc = reverse_checked()) return rc; break;
+            case CH_RUN_IGNORED_ON: reg.setRunIgnored(); run_ignored = true; break;
+            default: break;
+            }
+        }
         if (do_shuffle) {
             reg.shuffleTests(seed);
-            if (int rc = check_walk("after shuffleTests", reg, n, order)) return rc;
+            if (int rc = check_walk("after shuffleTests", reg, present, order)) return rc;
         }
-        g_exec.assign(n, 0); g_exec_order.clear();
+        evaluate();   // the model for the configuration in force for this repetition
+        size_t np = present.size();
+        auto cfg = [&]() {   // only rendered when a check fails
+            std::string c = sfmt("repetition %zu (run-ignored %d, group filters {", rep + 1, (int)run_ignored);
+            for (auto& f : filters[0]) c += show(f) + " ";
+            c += "} name filters {";
+            for (auto& f : filters[1]) c += show(f) + " ";
+            return c + "})";
+        };
+
+        g_exec.assign(total, 0); g_exec_order.clear();
         RecOutput out;
         TestResult tr(out);
         reg.runAllTests(tr);
 
         std::vector<int> after;
-        if (int rc = check_walk("after runAllTests", reg, n, after)) return rc;
+        if (int rc = check_walk("after runAllTests", reg, present, after)) return rc;
         V_CHECK(after == order, "C02:run-changed-order", "runAllTests changed the registry order: %s -> %s", show_ids(order).c_str(), show_ids(after).c_str());
 
         // execution counters
-        for (size_t i = 0; i < n; i++)
-            V_CHECK(g_exec[i] == (runs[i] ? 1 : 0), "C02:execution-count", "repetition %zu: test #%zu %s%s.%s executed %d times, expected %d (selected=%d) [%s]",
-                    rep + 1, i, tests[i].ignored ? "I:" : "", tests[i].group.c_str(), tests[i].name.c_str(), g_exec[i], runs[i] ? 1 : 0, (int)selected[i], desc.c_str());
+        for (size_t i = 0; i < total; i++)
+            V_CHECK(g_exec[i] == (runs[i] ? 1 : 0), "C02:execution-count", "%s: test #%zu %s executed %d times, expected %d (selected=%d) [%s]",
+                    cfg().c_str(), i, show_test(i).c_str(), g_exec[i], runs[i] ? 1 : 0, (int)selected[i], desc.c_str());
         // accounting identity and each counter
-        V_CHECK(tr.getTestCount() == n, "C02:count-tests", "repetition %zu: test count %zu, registered %zu [%s]", rep + 1, tr.getTestCount(), n, desc.c_str());
-        V_CHECK(tr.getRunCount() + tr.getIgnoredCount() + tr.getFilteredOutCount() == n, "C02:count-identity",
-                "repetition %zu: run %zu + ignored %zu + filtered out %zu != %zu tests [%s]", rep + 1, tr.getRunCount(), tr.getIgnoredCount(), tr.getFilteredOutCount(), n, desc.c_str());
-        V_CHECK(tr.getRunCount() == n_run, "C02:count-run", "repetition %zu: run count %zu, expected %zu [%s]", rep + 1, tr.getRunCount(), n_run, desc.c_str());
-        V_CHECK(tr.getIgnoredCount() == n_ign, "C02:count-ignored", "repetition %zu: ignored count %zu, expected %zu [%s]", rep + 1, tr.getIgnoredCount(), n_ign, desc.c_str());
-        V_CHECK(tr.getFilteredOutCount() == n - n_sel, "C02:count-filtered-out", "repetition %zu: filtered-out count %zu, expected %zu [%s]", rep + 1, tr.getFilteredOutCount(), n - n_sel, desc.c_str());
+        V_CHECK(tr.getTestCount() == np, "C02:count-tests", "%s: test count %zu, registered %zu [%s]", cfg().c_str(), tr.getTestCount(), np, desc.c_str());
+        V_CHECK(tr.getRunCount() + tr.getIgnoredCount() + tr.getFilteredOutCount() == np, "C02:count-identity",
+                "%s: run %zu + ignored %zu + filtered out %zu != %zu tests [%s]", cfg().c_str(), tr.getRunCount(), tr.getIgnoredCount(), tr.getFilteredOutCount(), np, desc.c_str());
+        V_CHECK(tr.getRunCount() == n_run, "C02:count-run", "%s: run count %zu, expected %zu [%s]", cfg().c_str(), tr.getRunCount(), n_run, desc.c_str());
+        V_CHECK(tr.getIgnoredCount() == n_ign, "C02:count-ignored", "%s: ignored count %zu, expected %zu [%s]", cfg().c_str(), tr.getIgnoredCount(), n_ign, desc.c_str());
+        V_CHECK(tr.getFilteredOutCount() == np - n_sel, "C02:count-filtered-out", "%s: filtered-out count %zu, expected %zu [%s]", cfg().c_str(), tr.getFilteredOutCount(), np - n_sel, desc.c_str());
         V_CHECK(tr.getFailureCount() == 0, "C02:unexpected-failure", "repetition %zu: %zu failures from tests that check nothing", rep + 1, tr.getFailureCount());
 
         // expected callback stream and execution order, from the actual order and the model
         std::vector<Ev> want; std::vector<int> want_exec;
         want.push_back({'S', -1});
         size_t group_runs = 0;
-        for (size_t i = 0; i < n; i++) {
+        for (size_t i = 0; i < np; i++) {
             const TestSpec& t = tests[(size_t)order[i]];
             bool first = i == 0 || tests[(size_t)order[i - 1]].group != t.group;
-            bool last = i + 1 == n || tests[(size_t)order[i + 1]].group != t.group;
+            bool last = i + 1 == np || tests[(size_t)order[i + 1]].group != t.group;
             if (first) { want.push_back({'G', order[i]}); group_runs++; }
             if (!first) adjacent_equal = true;
             if (selected[(size_t)order[i]]) { want.push_back({'T', order[i]}); want.push_back({'t', -1}); }
@@ -350,7 +456,7 @@ int run_case(Reader& r, bool& nontrivial, std::string& desc) {
         }
         bool same = want.size() == out.ev.size();
         for (size_t i = 0; same && i < want.size(); i++) same = want[i].kind == out.ev[i].kind && want[i].id == out.ev[i].id;
-        V_CHECK(same, "C02:callback-stream", "repetition %zu: callbacks %s expected %s [%s]", rep + 1, render(out.ev).c_str(), render(want).c_str(), desc.c_str());
+        V_CHECK(same, "C02:callback-stream", "%s: callbacks %s expected %s [%s]", cfg().c_str(), render(out.ev).c_str(), render(want).c_str(), desc.c_str());
         V_CHECK(want_exec == g_exec_order, "C02:execution-order", "repetition %zu: executed %s expected %s", rep + 1, show_ids(g_exec_order).c_str(), show_ids(want_exec).c_str());
         V_CHECK(reg.getCurrentRepetition() == (int)rep + 1, "C02:repetition-counter", "getCurrentRepetition()=%d after %zu runs", reg.getCurrentRepetition(), rep + 1);
     }
